@@ -156,6 +156,7 @@ def main():
     ap.add_argument("--out", default="/tmp/qvmut-results.jsonl")
     ap.add_argument("--resume", action="store_true")
     ap.add_argument("--kinds", default="cmp,binop,boolop,not,const,delete")
+    ap.add_argument("--retry-survivors", default=None, help="results file of an earlier campaign: re-run only its survivors (after the checks were strengthened)")
     a = ap.parse_args()
     scratch = f"/tmp/qvmut.{os.getpid()}"
     shutil.rmtree(scratch, ignore_errors=True)
@@ -171,6 +172,13 @@ def main():
                 todo.append((rel, c))
     random.Random(a.seed).shuffle(todo)
     todo = todo[: a.max]
+    if a.retry_survivors:
+        surv = set()
+        for ln in open(a.retry_survivors):
+            r = json.loads(ln)
+            if not r["caught_by"]:
+                surv.add((r["file"], r["line"], r["kind"], r["start"]))
+        todo = [(rel, c) for rel, c in todo if (rel, c[0], c[1], c[2]) in surv]
     done = set()
     if a.resume and os.path.exists(a.out):
         for ln in open(a.out):
